@@ -279,6 +279,53 @@ def check(run):
         for a, b, _ in p["refs"]:
             if a in live and b not in p["imports"][a]:
                 wits.append({"kind": "package %s names %s::L%s without importing %s, accepted" % (a, b, b, b), "project": p, "files": files_of(p)})
+    # ---- a directory whose files disagree about the package they belong to is rejected, wherever the stray file sorts ----
+    mstats = {"cases": 0, "rejected": 0}
+    try:
+        import shutil as _sh
+
+        mroot = os.path.join(vlib.BUILD, "tmp", "c16mis")
+        _sh.rmtree(mroot, ignore_errors=True)
+        minputs, mmeta = [], []
+        good = {"Geo": "package Geo\nimport Util\nfn area(w: int32, h: int32) -> int32 { Util::double(w * h) }\n", "Util": "package Util\nfn double(x: int32) -> int32 { x + x }\n"}
+        main = "package Main\nimport Geo\nimport Util\nfn main() { string_println(int32_to_string(Geo::area(2, 3) + Util::double(1))) }\n"
+        k_ = 0
+
+        def put(files):
+            nonlocal k_
+            d_ = os.path.join(mroot, "m%03d" % k_)
+            k_ += 1
+            for fn_, tx_ in files.items():
+                os.makedirs(os.path.dirname(os.path.join(d_, fn_)), exist_ok=True)
+                with open(os.path.join(d_, fn_), "w") as f_:
+                    f_.write(tx_)
+            minputs.append({"path": d_ + "/main.gom", "timeout_ms": 20000})
+            mmeta.append(files)
+
+        for host in ("Geo", "Util"):
+            for stray_name in ("a_stray.gom", "zz_stray.gom"):
+                for declared in ("Util", "Geo", "Main", "Nowhere"):
+                    if declared == host:
+                        continue
+                    for body in ("fn stray_fn(x: int32) -> int32 { x * 3 }", "fn double(x: int32) -> int32 { x * 3 }"):
+                        put({"main.gom": main, "Geo/geo.gom": good["Geo"], "Util/util.gom": good["Util"], "%s/%s" % (host, stray_name): "package %s\n%s\n" % (declared, body)})
+        for declared in ("Util", "Other"):
+            put({"main.gom": main, "Geo/geo.gom": good["Geo"], "Util/util.gom": good["Util"], "extra.gom": "package %s\nfn extra_fn() -> int32 { 1 }\n" % declared})
+        put({"main.gom": main, "Geo/geo.gom": good["Geo"], "Util/util.gom": good["Util"]})  # control: accepted
+        mres = vlib.run_harness("compile", minputs, shards=vlib.NCPU)
+        if not mres[-1].get("ok"):
+            broken.append(Broken("generator", "C16 misdeclared packages: the control project is rejected: %s" % json.dumps(mres[-1].get("diagnostics"))[:300]))
+        for files, r in list(zip(mmeta, mres))[:-1]:
+            mstats["cases"] += 1
+            if r.get("ok"):
+                wits.append({"kind": "a package directory with a file that declares another package is accepted", "files": files})
+            elif "panic" in r or r.get("timeout"):
+                wits.append({"kind": "panic/hang on a package directory with a file that declares another package", "files": files, "impl": {k2: v2 for k2, v2 in r.items() if k2 != "go"}})
+            else:
+                mstats["rejected"] += 1
+        _sh.rmtree(mroot, ignore_errors=True)
+    except Broken as b:
+        broken.append(b)
     hist = {}
     for v in reals:
         hist[v] = hist.get(v, 0) + 1
@@ -288,7 +335,7 @@ def check(run):
         "the same (trait, type) implemented in two packages; qualified references with/without import) + %d random placements (imports incl. cycles, own traits, several impls, references); "
         "each is compiled by the real compiler; accepted / import-cycle / visibility / orphan / duplicate verdicts are compared in coqc with the model; non-trivial = has an impl or a qualified reference" % (n_sys, len(ps) - n_sys)
     )
-    run.cov["correspondence"] = {"projects": len(ps), "model_mismatches": len(mism), "real_verdicts(0 ok,1 cycle,2 visibility,3 orphan,4 duplicate)": hist}
+    run.cov["correspondence"] = {"misdeclared_package_files": mstats, "projects": len(ps), "model_mismatches": len(mism), "real_verdicts(0 ok,1 cycle,2 visibility,3 orphan,4 duplicate)": hist}
     run.cov["open_obligations"] = ["qualified names in every syntactic position (types in signatures, patterns, trait bounds, struct literals) are exercised only through struct literals and impl headers", "generic impls and impls for type applications are outside the generated placements"]
     run.assumptions = ["a package can only mention a trait or nominal type of another package through a qualified name"]
     if wits:
